@@ -342,6 +342,8 @@ def _classify_while(lp, f):
             held = s.targets[0].elts[0].id
         if isinstance(s, ast.Assign) and isinstance(s.value, ast.Call) and call_name(s.value) == 'next' and isinstance(s.targets[0], ast.Name):
             held = s.targets[0].id
+    if held is None and isinstance(lp.test, ast.Name):
+        held = lp.test.id      # ``while piece:`` - the piece in hand is the loop's own condition
     halves = set()
     for s in ast.walk(lp):
         if isinstance(s, ast.Assign) and isinstance(s.targets[0], ast.Tuple) and len(s.targets[0].elts) == 2:
@@ -365,7 +367,8 @@ def _classify_while(lp, f):
                 progress = True     # x = x.attr: descent into a strictly smaller object
             if e[0] == 'set' and held and e[1] == held and (e[3] in ('None',) or e[3].endswith(' or None') and e[3][:-8] in halves):
                 progress = True
-            if e[0] == 'set' and held and e[1] == held and ('split_at' in e[3] or e[3] in halves):
+            if e[0] == 'set' and held and e[1] == held and ((e[3].startswith('split_at(') and e[3].endswith('[1]')) or
+                                                            ('split_at' in e[3] and not e[3].endswith(']')) or e[3] in halves):
                 progress = True     # shortened to the right half of a split (non-empty left half: C12.c floor)
         if not progress:
             bad.append(p.cond_text()[:120])
